@@ -268,12 +268,37 @@ func (w *world) expectations(pre []chainx.KV, vb int) []question {
 				}
 			}
 		}
+		tldNames := map[string][]string{}
+		for _, kv := range pre {
+			if len(kv.K) == 21 && kv.K[0] == 0x21 && vb < 18000 {
+				if f, ok := deserFields(kv.V); ok && len(f) >= 4 {
+					name, _ := f[1].TryBytes()
+					if o, err := f[0].TryBytes(); err == nil && len(o) == 20 && !strings.Contains(string(name), ".") {
+						tldNames[string(o)] = append(tldNames[string(o)], hx.Hex(name))
+					}
+				}
+			}
+		}
 		for o := range owners {
 			before, err := strconv.Atoi(w.answer("balanceOf:" + hx.Hex([]byte(o))))
 			if err != nil {
 				continue
 			}
 			add("balanceOf:"+hx.Hex([]byte(o)), strconv.Itoa(before-tldOwned[o]))
+			// tokensOf(owner): the same names minus the TLDs that left the owner
+			if tb := w.answer("tokensOf:" + hx.Hex([]byte(o))); tb != "!" {
+				drop := map[string]bool{}
+				for _, n := range tldNames[o] {
+					drop[n] = true
+				}
+				var keep []string
+				for _, n := range strings.Split(tb, ";") {
+					if n != "" && !drop[n] {
+						keep = append(keep, n)
+					}
+				}
+				add("tokensOf:"+hx.Hex([]byte(o)), sortedJoin(keep))
+			}
 		}
 	case "neofsid":
 		seen := map[string]bool{}
@@ -384,6 +409,28 @@ func (w *world) answer(q string) string {
 			}
 		}
 		return strings.Join(subs, ";")
+	case "nns.tokensOf":
+		// the iterator is unwrapped inside the VM (a returned iterator is dead once the test invocation is finalized)
+		script, err := smartcontract.CreateCallAndUnwrapIteratorScript(w.h, "tokensOf", 200, hx.UnHex(arg))
+		if err != nil {
+			return "!"
+		}
+		tx := w.c.NewScriptTx(nil, script)
+		tx.ValidUntilBlock = w.c.BC.BlockHeight() + 2
+		v, err := w.c.TestInvoke(tx)
+		if err != nil || v.Estack().Len() != 1 {
+			return "!"
+		}
+		l, ok := v.Estack().Pop().Item().Value().([]stackitem.Item)
+		if !ok {
+			return "!"
+		}
+		var names []string
+		for _, it := range l {
+			b, _ := it.TryBytes()
+			names = append(names, hx.Hex(b))
+		}
+		return sortedJoin(names)
 	case "nns.ownerOf":
 		return item("ownerOf", hx.UnHex(arg))
 	case "nns.getRecords":
